@@ -441,6 +441,18 @@ impl Scenario for Flow {
                             stop!();
                         }
                     }
+                    // ---- C12: the trailer of every end packet the sender emits (whether or not the receiver takes it)
+                    if kind == Kind::End && keep_crc && pkt.len() >= 7 {
+                        let f = &flights[fi];
+                        let want = cr.gse(f.total_len, f.ptype, &f.written_label, &f.pdu);
+                        let got = u32::from_be_bytes(pkt[pkt.len() - 4..].try_into().unwrap());
+                        ex.st.inc("end_trailers_compared");
+                        if got != want {
+                            if ex.report(Violation::new("C12", "C12.trailer", format!("label{}", f.written_label.len()), format!("end trailer {:08x}, reference {:08x}", got, want))) {
+                                stop!();
+                            }
+                        }
+                    }
                     // ---- C19
                     if let Ok(pkr) = &pk {
                         let want: Result<LabelorFragId, GetLabelorFragIdError> = match kind {
